@@ -105,6 +105,10 @@ def build_scratch(prop, verbose=True):
     if r.returncode != 0:
         trouble("simrewrite failed on the current tree (does /repo build?):\n" + r.stdout[-4000:] + r.stderr[-4000:])
     report = json.load(open(report_path))
+    # tell the harness what the rewriter could not model
+    with open(os.path.join(tree, "cmd", cfg["cmd"], "zz_rewrite_report.go"), "w") as f:
+        f.write("package main\n\n// written by the driver from the simrewrite report\nvar rewriteGoStmts = %d\nvar rewriteUnmodelled = %d\n" % (
+            int(report.get("go_statements_in_pass_y") or 0), len(report.get("unmodelled") or [])))
     binary = os.path.join(d, cfg["cmd"])
     cmd = [GO, "build", "-trimpath", "-tags", "verif"]
     if cfg["race"]:
